@@ -346,6 +346,13 @@ func attempt(c Case) outcome {
 		}
 
 		sig := fmt.Sprintf("C=%s,S=%s|%s", errClass(p.C.Err()), errClass(p.S.Err()), faultSig(plan))
+		if strings.Contains(errClass(p.C.Err()), "unimplemented DTLS 1.3 flight") && p.S.OK() {
+			// The error itself names the root cause (the client, still in flight 5, is handed a
+			// post-handshake message because the server's ACK did not get there first); which
+			// disturbance opened that window (ACK lost, delayed, overtaken by a retransmitted
+			// NewSessionTicket) is incidental and not stable under rescheduling.
+			sig = fmt.Sprintf("C=%s,S=%s|server-ack-not-first", errClass(p.C.Err()), errClass(p.S.Err()))
+		}
 		if errClass(p.C.Err()) == "deadline-in-version-negotiation" && eff > 0 {
 			// one root cause whatever was lost: the negotiation phase has no retransmission timer
 			sig = fmt.Sprintf("C=%s,S=%s|any-loss", errClass(p.C.Err()), errClass(p.S.Err()))
